@@ -490,11 +490,25 @@ def check_own(ctx):
     algo_attr_names = {}
     for c in algo_classes(model):
         node_like = c.name in [x.name for x in model.subclasses("P_node")]
+        # attributes of the algorithm object that alias a list of the tree (self.pending = cell.get_children()): a mutation through
+        # the attribute, in any method, edits the tree
+        attr_aliases = set()
+        for fn0 in c.methods.values():
+            loc0 = set()
+            for n in ast.walk(fn0):
+                if isinstance(n, ast.Assign) and len(n.targets) == 1:
+                    if isinstance(n.targets[0], ast.Name) and tree_container_expr(n.value, loc0):
+                        loc0.add(n.targets[0].id)
+                    if is_self_attr(n.targets[0]) and n.targets[0].attr not in ("partition",) and tree_container_expr(n.value, loc0) and \
+                            not (isinstance(n.value, ast.Subscript) and isinstance(n.value.value, ast.Name) and n.value.value.id in loc0 and False):
+                        # (a subscript of the node list alias that denotes a CELL is not a container: only layer/child-list/node-list values)
+                        if not _denotes_cell(n.value, loc0):
+                            attr_aliases.add("self." + n.targets[0].attr)
         for fn in c.methods.values():
             qual = "%s.%s" % (c.name, fn.name)
             ctx.fn(qual)
             # local aliases of tree containers
-            aliases = set()
+            aliases = set(attr_aliases)
             for n in ast.walk(fn):
                 if isinstance(n, ast.Assign) and len(n.targets) == 1 and isinstance(n.targets[0], ast.Name):
                     if tree_container_expr(n.value, aliases):
@@ -627,6 +641,19 @@ def layerlist_expr(e, aliases):
     return False
 
 
+def _denotes_cell(e, aliases):
+    """NL[h][i] / layer[i] / children[i]: an element of a layer or child list is a cell, not a container."""
+    if isinstance(e, ast.Subscript) and not isinstance(e.slice, ast.Slice):
+        v = e.value
+        if isinstance(v, ast.Subscript):
+            return True
+        if isinstance(v, ast.Call) and method_name(v) in ("get_children", "get_layer_node_list"):
+            return True
+        if isinstance(v, ast.Attribute) and v.attr == "children":
+            return True
+    return False
+
+
 def tree_container_expr(e, aliases):
     """Does `e` evaluate to a list owned by the partition tree (node_list, a layer, a child list)?"""
     if isinstance(e, ast.Call) and method_name(e) in TREE_GETTERS:
@@ -636,6 +663,8 @@ def tree_container_expr(e, aliases):
         return True
     if isinstance(e, ast.Name) and e.id in aliases:
         return True
+    if is_self_attr(e) and ("self." + e.attr) in aliases:
+        return True         # an attribute of the algorithm that was bound to a list of the tree somewhere in the class
     if isinstance(e, ast.Subscript):
         # node_list[h] is a layer (owned); node_list[h][i] is a cell (not a container)
         v = e.value
